@@ -30,10 +30,10 @@ package proto
 //@ spec func elemArr(a Bytes, n Int) Bytes
 //@ spec func elemLen(a Bytes, n Int) Int
 
-//@ contract (c ColumnType) Base() (r) props(C19)
+//@ contract (c ColumnType) Base() (r) props(C06,C19)
 //@   ensures len(r) <= len(c) [C19] {a-prefix-length}
 //@   ensures [abstract] arrayof(r) == baseArr(arrayof(c), len(c)) && len(r) == baseLen(arrayof(c), len(c))
-//@ contract (c ColumnType) Elem() (r) props(C19)
+//@ contract (c ColumnType) Elem() (r) props(C06,C19)
 //@   ensures len(r) <= len(c) [C19] {a-substring-length}
 //@   ensures [abstract] arrayof(r) == elemArr(arrayof(c), len(c)) && len(r) == elemLen(arrayof(c), len(c))
 
